@@ -256,9 +256,36 @@ def rule_g(repo, chk):
     chk.ob('C03.g', ok, fs, 'in a comprehension scope the trailing iterable part is routed to the parent context')
 
 
+def rule_h(repo, chk):
+    chk.clause('C03.h', 'a use on the right-hand side of a statement does not see that statement\'s own targets: the position limit chosen by '
+                        'AbstractTreeName.goto is the start of the enclosing STATEMENT (only statement-level node types, plus the lambda special '
+                        'case, are searched — an expression-level ancestor would move the limit past targets that precede it textually)')
+    f = repo.find('jedi.inference.names', 'AbstractTreeName.goto')
+    cg = [c for c in calls_in(f, 'goto') if norm(c.func) == 'context.goto' and kwarg(c, 'position') is not None]
+    chk.floor('C03.h', len(cg), 1, '(context.goto with a position limit)')
+    for c in cg:
+        pos = kwarg(c, 'position')
+        ok = isinstance(pos, ast.Attribute) and pos.attr == 'start_pos' and isinstance(pos.value, ast.Name)
+        chk.ob('C03.h', ok, c, 'the lookup is limited to names before the start of a node (`%s`)' % short(pos))
+        if not ok:
+            continue
+        var = pos.value.id
+        defs = [s_ for s_ in stmts_in(f, ast.Assign) if norm(s_.targets[0]) == var]
+        sa = [x for d in defs for x in ast.walk(d.value) if isinstance(x, ast.Call) and call_name(x) == 'search_ancestor']
+        chk.ob('C03.h', len(sa) == 1, f, 'the limit node comes from one search_ancestor call (falling back to the name itself)')
+        for x in sa:
+            types = [a.value if isinstance(a, ast.Constant) else None for a in x.args]
+            bad = [t for t in types if t is None or not (t.endswith('_stmt') or t == 'lambdef')]
+            chk.ob('C03.h', not bad, x, 'only statement-level ancestors (…_stmt) and lambdef limit the lookup position', 'expression-level/unknown types: %s' % bad)
+            chk.ob('C03.h', 'expr_stmt' in types, x, 'assignments (expr_stmt) limit the lookup to before the statement')
+        lam = [s_ for s_ in stmts_in(f, ast.Assign) if norm(s_.targets[0]) == var and norm(s_.value) == 'name']
+        ok = bool(lam) and all(gate(f, s_, lambda e, pol: pol and norm(e) == "%s.type == 'lambdef'" % var) is None for s_ in lam)
+        chk.ob('C03.h', ok, f, 'inside a lambda the limit is the name itself (its parameters precede it)')
+
+
 def describe(chk):
     chk.undecided('that goto lands on the binding Python used, over all scope shapes (run-time oracle); flow pruning decisions; nonlocal; '
                   'the position limit chosen by AbstractTreeName.goto for walrus/lambda bodies')
 
 
-RULES = [('C03.a', rule_a), ('C03.b', rule_b), ('C03.c', rule_c), ('C03.d', rule_d), ('C03.e', rule_e), ('C03.f', rule_f), ('C03.g', rule_g)]
+RULES = [('C03.a', rule_a), ('C03.b', rule_b), ('C03.c', rule_c), ('C03.d', rule_d), ('C03.e', rule_e), ('C03.f', rule_f), ('C03.g', rule_g), ('C03.h', rule_h)]
